@@ -22,11 +22,11 @@ Section State.
   Variable cf : bcfg.
 
   Lemma fresh_nil : forall s g,
-    fresh [] s g = (BSt (b_names s ++ [g]) (b_cache s) (b_total s) (b_nnames s), g).
+    fresh [] s g = (BSt (b_names s ++ [g]) (b_cache s) (b_total s) (b_nnames s) (b_anon s), g).
   Proof. reflexivity. Qed.
 
   Lemma fresh_many_nil : forall gens s,
-    fresh_many [] s gens = (BSt (b_names s ++ gens) (b_cache s) (b_total s) (b_nnames s), gens).
+    fresh_many [] s gens = (BSt (b_names s ++ gens) (b_cache s) (b_total s) (b_nnames s) (b_anon s), gens).
   Proof.
     induction gens as [|g r IH]; intros s; simpl.
     - rewrite app_nil_r. destruct s; reflexivity.
